@@ -2,6 +2,9 @@
    Sample / Hook / UpdateContext, context.go).  Backing arrays, slice headers
    and Go's append (in place iff it fits, else a fresh array of ANY sufficient
    capacity - the growth policy is a parameter) come from Misc/HlogHeap.v.
+   Context.Reset() (context.go) replaces the Context value's buffer by a fresh
+   500-byte array holding only the begin marker, alone or inside the function
+   given to UpdateContext.
    A Logger value is a slice header (its context) - hooks are rebuilt into a
    fresh exact-capacity slice by every Hook() and are therefore immutable
    values, handled by the pure model (Api/Exec.v).
@@ -13,6 +16,12 @@ Open Scope nat_scope.
 Definition bytes := list N.
 Definition var := nat.
 
+(* one context method called on a Context value: it appends d to the buffer
+   (Str, Int, ... - which bytes is C01-C03's subject) or it is Reset() *)
+Inductive cop :=
+| CApp (d : bytes)
+| CReset.
+
 Inductive hstmt :=
 | HRoot                          (* l := zerolog.New(w): nil context *)
 | HWith (l : var)                (* c := l.With() *)
@@ -20,8 +29,9 @@ Inductive hstmt :=
 | HLogger (c : var)              (* l := c.Logger() *)
 | HCopy (l : var)                (* l' := l.Level(..) / Sample(..) / Hook(..): the header is copied *)
 | HOutput (l : var)              (* l' := l.Output(w): make(len, cap) + copy *)
-| HUpdate (l : var) (ds : list bytes)  (* l.UpdateContext(f), f appending ds: through the pointer, defines no variable *)
-| HEmit (l : var).               (* an event is emitted through l: its context is read *)
+| HUpdate (l : var) (ops : list cop)  (* l.UpdateContext(f), f calling the context methods ops in turn: through the pointer, defines no variable *)
+| HEmit (l : var)                (* an event is emitted through l: its context is read *)
+| HReset (c : var).              (* c' := c.Reset(): enc.AppendBeginMarker(make([]byte, 0, 500)) *)
 
 (* a variable: its context header (None = nil slice), whether it is still
    usable (a Context value is consumed by the call that uses it), and whether
@@ -37,10 +47,16 @@ Definition kill (env : list hval) (x : var) : list hval :=
   upd env x {| v_ctx := v_ctx (get env x); v_live := false; v_own := false |}.
 Definition disown (env : list hval) (x : var) : list hval := env.
 
-Fixpoint appends (grow : nat -> nat -> nat) (h : heap) (s : slice) (ds : list bytes) : heap * slice :=
-  match ds with
+(* Context.Reset: make([]byte, 0, 500) followed by AppendBeginMarker - the allocation With() does for a
+   logger without context (logger_with on None) *)
+Definition ctx_reset (grow : nat -> nat -> nat) (h : heap) : heap * slice :=
+  let '(h', s', _) := logger_with grow h None in (h', s').
+
+Fixpoint apply_ops (grow : nat -> nat -> nat) (h : heap) (s : slice) (ops : list cop) : heap * slice :=
+  match ops with
   | [] => (h, s)
-  | d :: t => let '(h', s', _) := append grow h s d in appends grow h' s' t
+  | CApp d :: t => let '(h', s', _) := append grow h s d in apply_ops grow h' s' t
+  | CReset :: t => let '(h', s') := ctx_reset grow h in apply_ops grow h' s' t
   end.
 
 Definition hstep (grow : nat -> nat -> nat) (st : hstate) (c : hstmt) : hstate :=
@@ -71,14 +87,17 @@ Definition hstep (grow : nat -> nat -> nat) (st : hstate) (c : hstmt) : hstate :
              hs_obs := hs_obs st |}
       | None => {| hs_heap := h; hs_env := env ++ [{| v_ctx := None; v_live := true; v_own := false |}]; hs_obs := hs_obs st |}
       end
-  | HUpdate l ds =>
+  | HUpdate l ops =>
       match v_ctx (get env l) with
       | Some s =>
-          let '(h', s') := appends grow h s ds in
+          let '(h', s') := apply_ops grow h s ops in
           {| hs_heap := h'; hs_env := upd env l {| v_ctx := Some s'; v_live := true; v_own := v_own (get env l) |}; hs_obs := hs_obs st |}
       | None => st   (* UpdateContext on a logger without context allocates first; not used on such loggers here *)
       end
   | HEmit l => {| hs_heap := h; hs_env := env; hs_obs := hs_obs st ++ [hview h (get env l)] |}
+  | HReset c =>
+      let '(h', s') := ctx_reset grow h in
+      {| hs_heap := h'; hs_env := kill env c ++ [{| v_ctx := Some s'; v_live := true; v_own := v_own (get env c) |}]; hs_obs := hs_obs st |}
   end.
 
 Definition hinit : hstate := {| hs_heap := []; hs_env := []; hs_obs := [] |}.
@@ -88,6 +107,8 @@ Definition hrun (grow : nat -> nat -> nat) (p : list hstmt) : hstate := fold_lef
 Record pstate := { ps_env : list bytes; ps_obs : list bytes }.
 Definition pget (env : list bytes) (x : var) : bytes := nth x env [].
 
+Definition pop (p : bytes) (o : cop) : bytes := match o with CApp d => p ++ d | CReset => begin_marker end.
+
 Definition pstep (st : pstate) (c : hstmt) : pstate :=
   let env := ps_env st in
   match c with
@@ -95,8 +116,9 @@ Definition pstep (st : pstate) (c : hstmt) : pstate :=
   | HWith l => {| ps_env := env ++ [match pget env l with [] => begin_marker | b => b end]; ps_obs := ps_obs st |}
   | HOp c d => {| ps_env := env ++ [pget env c ++ d]; ps_obs := ps_obs st |}
   | HLogger c | HCopy c | HOutput c => {| ps_env := env ++ [pget env c]; ps_obs := ps_obs st |}
-  | HUpdate l ds => {| ps_env := upd env l (pget env l ++ concat ds); ps_obs := ps_obs st |}
+  | HUpdate l ops => {| ps_env := upd env l (fold_left pop ops (pget env l)); ps_obs := ps_obs st |}
   | HEmit l => {| ps_env := env; ps_obs := ps_obs st ++ [pget env l] |}
+  | HReset c => {| ps_env := env ++ [begin_marker]; ps_obs := ps_obs st |}
   end.
 Definition prun (p : list hstmt) : pstate := fold_left pstep p {| ps_env := []; ps_obs := [] |}.
 
@@ -112,7 +134,7 @@ Definition acheck (env : list aval) (c : hstmt) : option (list aval) :=
   | HWith l =>
       if a_live (aget env l) && negb (a_isctx (aget env l)) && (l <? length env)
       then Some (env ++ [{| a_isctx := true; a_live := true; a_own := true; a_nil := false |}]) else None
-  | HOp c d =>
+  | HOp c _ | HReset c =>
       if a_live (aget env c) && a_isctx (aget env c) && a_own (aget env c) && (c <? length env)
       then Some (upd env c {| a_isctx := true; a_live := false; a_own := false; a_nil := false |} ++
                  [{| a_isctx := true; a_live := true; a_own := true; a_nil := false |}]) else None
@@ -126,7 +148,7 @@ Definition acheck (env : list aval) (c : hstmt) : option (list aval) :=
   | HOutput l =>
       if a_live (aget env l) && negb (a_isctx (aget env l)) && (l <? length env)
       then Some (env ++ [{| a_isctx := false; a_live := true; a_own := negb (a_nil (aget env l)); a_nil := a_nil (aget env l) |}]) else None
-  | HUpdate l ds =>
+  | HUpdate l ops =>
       (* only on a logger that was itself produced by With()...Logger() (or Output): the owner of its array *)
       if a_live (aget env l) && negb (a_isctx (aget env l)) && a_own (aget env l) && (l <? length env) then Some env else None
   | HEmit l =>
